@@ -483,4 +483,50 @@ Definition session_bottom_up (fuel : nat) (w : world) (changed : list res) : out
   let w2 := emit (set_cur w1 None) EBuildStart in
   bind (execute_scheduled fuel w2) (fun _ w3 => Done tt (emit w3 EBuildEnd)).
 
+(* ---- histories: external edits, checker-environment switches, sessions ---- *)
+Inductive sop := SRequire (t : task) | SBottomUp (changed : list res).
+Inductive step :=
+| HEdit (r : res) (v : content)          (* external change of a resource *)
+| HEnv (failing : list res)              (* switch the checker environment *)
+| HSession (ops : list sop).
+(* observable result of one session operation *)
+Inductive sres := RDone (o : option Z) | RAbort (k : akind) | RFuel.
+
+Definition run_sop (fuel : nat) (w : world) (o : sop) : sres * world :=
+  match o with
+  | SRequire t =>
+    match session_require fuel w t with
+    | Done x w' => (RDone (Some x), w') | Abort k w' => (RAbort k, w') | OutOfFuel => (RFuel, w)
+    end
+  | SBottomUp ch =>
+    match session_bottom_up fuel w ch with
+    | Done _ w' => (RDone None, w') | Abort k w' => (RAbort k, w') | OutOfFuel => (RFuel, w)
+    end
+  end.
+
+(* a session stops at the first abort (the panic unwinds out of the session) *)
+Fixpoint run_session (fuel : nat) (w : world) (ops : list sop) : list sres * world :=
+  match ops with
+  | [] => ([], w)
+  | o :: tl =>
+    match run_sop fuel w o with
+    | (RDone x, w') => let '(rs, w'') := run_session fuel w' tl in (RDone x :: rs, w'')
+    | (r, w') => ([r], w')
+    end
+  end.
+
+Definition run_step (fuel : nat) (w : world) (s : step) : list sres * world :=
+  match s with
+  | HEdit r v => ([], set_content w r v)
+  | HEnv f => ([], set_env w f)
+  | HSession ops => run_session fuel (new_session w) ops
+  end.
+
+Fixpoint run_history (fuel : nat) (w : world) (h : list step) : list (list sres) * world :=
+  match h with
+  | [] => ([], w)
+  | s :: tl => let '(r, w') := run_step fuel w s in
+               let '(rs, w'') := run_history fuel w' tl in (r :: rs, w'')
+  end.
+
 End Model.
